@@ -31,7 +31,7 @@ COMPONENTS = {"real": ["pyjelly serializers and parsers of both integrations, mo
 ASSUMPTIONS = ["pre-emption only at Python line boundaries inside pyjelly (not inside C calls of protobuf / io)",
                "hash-seed clause applied to explicit sequences only (rdflib containers iterate in hash order by design)",
                "the rdflib GraphStream-from-generator path regroups through a set (known finding)"]
-PROBES = ["nested_steps", "coop_runs", "thread_runs", "subproc_runs", "shared_options", "neighbour_abandoned", "neighbour_failed",
+PROBES = ["namespace_workloads", "nested_steps", "coop_runs", "thread_runs", "subproc_runs", "shared_options", "neighbour_abandoned", "neighbour_failed",
           "neighbour_unused", "thread_switches", "parse_workloads", "ser_workloads", "rdflib_workloads"]
 SHRINK_LISTS = ["workloads"]
 
@@ -49,8 +49,21 @@ def gen_workload(rng, allow_rdflib_graphs_gen=False):
     cfg = nodes.default_cfg(integration=integration, physical=physical, logical=1 if physical == "TRIPLES" else 2,
                             delimited=True, frame_size=rng.choice([1, 2, 3, 250]), max_names=mn, max_prefixes=mp,
                             max_datatypes=md, generalized=flags["generalized"], rdf_star=flags["rdf_star"], entry=entry)
+    ops = [["stmt", *T.to_json(st)] for st in stmts]
+    if integration == "generic" and rng.random() < 0.3:
+        # a sink with namespace bindings: explicit, ordered input, so the bytes must not depend on hashing
+        from simkit import workload as W2
+        pools = W2.Pools(rng, 4, 4, 1)
+        nss = W2.gen_namespaces(rng, pools, rng.randint(2, 6))
+        need = W2.max_needs(stmts, nss, prefix_enabled=cfg["max_prefixes"] > 0, graphs_type=physical == "GRAPHS")
+        if cfg["max_prefixes"]:
+            cfg["max_prefixes"] = max(cfg["max_prefixes"], need[0])
+        cfg["max_names"] = max(cfg["max_names"], need[1])
+        cfg["ns"] = True
+        cfg["entry"] = "frames_sink"
+        ops = [["ns", p, i] for p, i in nss] + ops
     return {"kind": rng.choice(["ser", "ser", "parse"]), "cfg": cfg,
-            "ops": [["stmt", *T.to_json(st)] for st in stmts], "consumer": rng.choice(["flat", "grouped"])}
+            "ops": ops, "consumer": rng.choice(["flat", "grouped"])}
 
 
 def generate(rng, run, tier):
@@ -77,6 +90,9 @@ def generate(rng, run, tier):
     return {"mode": mode, "workloads": wl, "neighbours": neighbours, "max_gap": rng.choice([3, 8, 24, 64])}
 
 
+COUNT: dict = {}
+
+
 def same_arity(a, b):
     return (a["cfg"]["physical"] == "TRIPLES") == (b["cfg"]["physical"] == "TRIPLES")
 
@@ -101,6 +117,11 @@ def ser_steps(w, out: io.BytesIO, options=None, fail_at=None, sched=None):
         options = nodes.make_options(cfg)
     if cfg["entry"] == "flat_frames":
         frames = m.flat_stream_to_frames(source(), options)
+    elif cfg["entry"] == "frames_sink":
+        # ordered container with namespace bindings (generic sinks keep insertion order)
+        _, nss = nodes.split_ops(w["ops"])
+        stream = nodes.make_stream(cfg, options)
+        frames = m.stream_frames(stream, nodes.make_container(cfg, stmts, nss))
     else:
         stream = nodes.make_stream(cfg, options)
         frames = m.stream_frames(stream, source())
@@ -123,6 +144,8 @@ def parse_steps(w, data: bytes, result: list):
 
 def solo(w):
     """Run workload w alone. Returns (bytes written, parse result | None)."""
+    if w["cfg"].get("ns"):
+        COUNT["ns"] = COUNT.get("ns", 0) + 1
     out = io.BytesIO()
     for _ in ser_steps(w, out):
         pass
@@ -340,6 +363,9 @@ def subproc_side(plan, sim):
 def execute(plan, sim):
     import warnings
     warnings.simplefilter("ignore")
+    n_ns = sum(1 for w in plan["workloads"] if w["cfg"].get("ns"))
+    if n_ns:
+        sim.count("namespace_workloads", n_ns)
     if plan["mode"] == "coop":
         return coop_side(plan, sim)
     if plan["mode"] == "threads":
